@@ -185,6 +185,11 @@ pub fn parse_header(header: &str, config: &Config) -> Result<String> {
             }
         },
     ) {
+        // cbindgen only emits the types the API refers to
+        if !header.contains(&format!("}} {};", ty)) {
+            continue;
+        }
+
         all_wrappers += &format!(
             r"static inline {ty} ctx_{prefix}_clone({ty} *self) {{
     {ty} ret = *self;
@@ -213,6 +218,10 @@ static inline void ctx_{prefix}_drop({ty} *self) {{
             },
         )| drop_impl.map(|impl_drop| (ty, ty_prefix.to_lowercase(), impl_drop)),
     ) {
+        if !header.contains(&format!("}} {};", ty)) {
+            continue;
+        }
+
         all_wrappers += &format!(
             r"static inline void cont_{prefix}_drop({ty} *self) {{
     {impl_drop}
